@@ -8,7 +8,7 @@ use crate::{
 };
 
 // § 9 "End of file container" (2022-04-12)
-const EOF_LENGTH: usize = 15;
+pub(crate) const EOF_LENGTH: usize = 15;
 const EOF_REFERENCE_SEQUENCE_ID: i32 = -1;
 const EOF_ALIGNMENT_START: i32 = 4_542_278;
 const EOF_BLOCK_COUNT: usize = 1;
